@@ -31,6 +31,7 @@ type Exec struct {
 	rootName       string // pkg.Recv.Func
 	alloc0         string
 	elemClosedDone map[string]bool
+	emitted        map[string]bool
 	entry          *State
 	frame          *FrameSpec
 	depth          int
@@ -392,7 +393,7 @@ func (e *Engine) VerifyFunction(fn *ssa.Function) (ctx *Ctx, x *Exec, err error)
 	var prereg []preregKey
 	for pass := 0; pass < 3; pass++ {
 		x = &Exec{eng: e, ctx: NewCtx(fullKey(fn)), heap: newHeapInfo(), root: fn, rootSpec: spec, rootName: fullKey(fn),
-			strs: map[string]string{}, counters: map[string]int{}, anchorsHit: map[int]bool{}, logInit: map[string]Val{}, usedSpecs: map[string]bool{}, inlined: map[string]bool{}, externals: map[string]bool{}}
+			emitted: map[string]bool{}, strs: map[string]string{}, counters: map[string]int{}, anchorsHit: map[int]bool{}, logInit: map[string]Val{}, usedSpecs: map[string]bool{}, inlined: map[string]bool{}, externals: map[string]bool{}}
 		err = x.runRoot(prereg)
 		if err != nil {
 			return x.ctx, x, err
